@@ -17,5 +17,6 @@ int verif_int_in(int lo, int hi){ int v=(int)nextv(); __CPROVER_assume(v>=lo && 
 double verif_double_in(double lo, double hi){ double v=nextv(); __CPROVER_assume(v>=lo && v<=hi); return v; }
 int verif_choice(int n){ int v=(int)nextv(); __CPROVER_assume(v>=0 && v<n); return v; }
 void verif_heap_order(int mode){ (void)mode; }
+void verif_band_nofork(int on){ (void)on; }
 extern void harness(void);
 int main(void){ setvbuf(stdout,0,_IOLBF,1<<12); harness(); fflush(stdout); return 0; }
